@@ -158,28 +158,29 @@ theorem wrapImproper_all_pass : ∀ (n : Nat) (box : KBox) (children : List KBox
       cases h
       rw [wrapImproper_all_pass n box cs wt test rest (fun d hd => hall d (List.mem_cons_of_mem _ hd)) hrest]
 
+theorem mem_rule13Last (l : List KBox) : ∀ o ∈ rule13Last l, o ∈ l := by
+  intro o ho
+  unfold rule13Last at ho
+  split at ho
+  · split at ho
+    · exact (List.dropLast_subset _) ho
+    · exact ho
+  · exact ho
+
+theorem mem_rule13First (l : List KBox) : ∀ o ∈ rule13First l, o ∈ l := by
+  intro o ho
+  unfold rule13First at ho
+  split at ho
+  · split at ho
+    · exact List.mem_cons_of_mem _ ho
+    · exact ho
+  · exact ho
+
 theorem mem_rule13 (l : List KBox) : ∀ o ∈ rule13 l, o ∈ l := by
   intro o ho
   unfold rule13 at ho
   split at ho
-  · -- the last-child step yields a prefix of `l`, the first-child step a suffix of that
-    have hstep1 : ∀ l1 : List KBox, (∀ x ∈ l1, x ∈ l) → ∀ x ∈ (match l1 with
-        | text :: internal :: rest =>
-          if (Gen.internalTableOrCaption internal.kind && isWhitespace text) = true then internal :: rest else l1
-        | _ => l1), x ∈ l := by
-      intro l1 h1 x hx
-      split at hx
-      · split at hx
-        · exact h1 x (List.mem_cons_of_mem _ hx)
-        · exact h1 x hx
-      · exact h1 x hx
-    refine hstep1 _ ?_ o ho
-    intro x hx
-    split at hx
-    · split at hx
-      · exact (List.dropLast_subset _) hx
-      · exact hx
-    · exact hx
+  · exact mem_rule13Last l o (mem_rule13First _ o ho)
   · exact ho
 
 theorem mem_rule14 (l : List KBox) : ∀ (prev : Option KBox), ∀ o ∈ rule14 prev l, o ∈ l := by
@@ -188,13 +189,11 @@ theorem mem_rule14 (l : List KBox) : ∀ (prev : Option KBox), ∀ o ∈ rule14 
   | cons c cs ih =>
     intro prev o ho
     unfold rule14 at ho
-    simp only at ho
-    repeat' split at ho
-    all_goals first
-      | exact List.mem_cons_of_mem _ (ih _ o ho)
-      | (cases ho with
-         | head => exact List.mem_cons_self
-         | tail _ h' => exact List.mem_cons_of_mem _ (ih _ o h'))
+    split at ho
+    · exact List.mem_cons_of_mem _ (ih _ o ho)
+    · cases ho with
+      | head => exact List.mem_cons_self
+      | tail _ h' => exact List.mem_cons_of_mem _ (ih _ o h')
 
 theorem isA_kind_iff (c : KBox) (k : BoxKind) (cls : BoxClass)
     (h : ∀ j : BoxKind, Gen.isSub j cls = true ↔ j = k) : c.isA cls = true ↔ c.kind = k := by
@@ -668,7 +667,7 @@ theorem tbc_column_group (n : Nat) (box : KBox) (children : List KBox) (r : KBox
       | nil => intro _; rfl
       | cons c cs ih =>
         intro hl
-        unfold rule14
+        unfold rule14 rule14Drop
         have hc : isWhitespace c = false := by
           unfold isWhitespace KBox.isA
           rw [hl c List.mem_cons_self]; rfl
